@@ -45,11 +45,57 @@ def relations(ctx, rule='A14'):
                    f'derived relation: earlier {val.get((m, perm))} later')
     # inactive (-1) entries are ignored, single-column input is unconstrained
     txt = FnText(ctx, fn2)
-    ok = 'active_row = row[row != -1]' in txt and 'if len(active_row) > 1' in txt
+    # a row is reduced to its active entries (`<row>[<row> != -1]`) and the predicate only decides rows with more than
+    # one of them (a test of len(<active>) against 1 / 2) - in the function or a private helper of its unit
+    from ..rules import intcmp as _ic13
+    unit2 = unit_functions(ctx.prog, fn2)
+    act_names = {norm(a.targets[0]) for u in unit2 for a in walk_fn(u)
+                 if isinstance(a, ast.Assign) and isinstance(a.value, ast.Subscript) and
+                 isinstance(a.value.slice, ast.Compare) and isinstance(a.value.slice.ops[0], ast.NotEq) and
+                 norm(a.value.slice.comparators[0]) == '-1' and norm(a.value.slice.left) == norm(a.value.value)}
+    lens = []
+    for u in unit2:
+        for c in ast.walk(u.node):
+            if isinstance(c, ast.Compare) and len(c.ops) == 1 and isinstance(c.left, ast.Call) and \
+                    call_name(c.left) == 'len' and c.left.args and norm(c.left.args[0]) in act_names:
+                try:
+                    lens.append(_ic13.value_set(c, _ic13.is_len_of(lambda e: norm(e) in act_names),
+                                                domain=tuple(range(0, 6))))
+                except _ic13.NotSimple:
+                    pass
+    ok = bool(act_names) and any(v in (frozenset({2, 3, 4, 5}), frozenset({0, 1})) for v in lens)
     ctx.ob(rule, fkey(fn2, rule, 'inactive-ignored'), ok, fn2.where,
            'choices that are not active together (index -1) are not constrained: rows are compared on their '
            'active entries only, and only when more than one is active', '')
-    ok = '(idx_comb[:, i] != idx_comb[:, j]) | (idx_comb[:, i] == -1) | (idx_comb[:, j] == -1)' in txt
+    # PERMUTATION: the pair mask is `col_i != col_j` or-ed with "column i inactive" and "column j inactive"
+    ok = False
+    for u in unit2:
+        for b_ in ast.walk(u.node):
+            if not (isinstance(b_, ast.BinOp) and isinstance(b_.op, ast.BitOr)):
+                continue
+            ops_, todo = [], [b_]
+            while todo:
+                x = todo.pop()
+                if isinstance(x, ast.BinOp) and isinstance(x.op, ast.BitOr):
+                    todo += [x.left, x.right]
+                else:
+                    ops_.append(x)
+            ne = [x for x in ops_ if isinstance(x, ast.Compare) and isinstance(x.ops[0], ast.NotEq) and
+                  '[:, ' in norm(x.left) and '[:, ' in norm(x.comparators[0])]
+            if not ne:
+                continue
+            def col(e):
+                return norm(e.slice.elts[1]) if isinstance(e, ast.Subscript) and isinstance(e.slice, ast.Tuple) and \
+                    len(e.slice.elts) == 2 else None
+            cols = {col(ne[0].left), col(ne[0].comparators[0])} - {None}
+            inact = set()
+            for x in ops_:
+                if x is ne[0]:
+                    continue
+                t_ = norm(expand_locals(u, x))
+                if '== -1' in t_:
+                    inact |= {c_ for c_ in cols if f'[:, {c_}]' in norm(x) or f'[:, {c_}]' in t_}
+            ok = ok or (len(cols) == 2 and inact == cols)
     ctx.ob(rule, fkey(fn2, rule, 'permutation-inactive-ignored'), ok, fn2.where,
            'the pairwise PERMUTATION test accepts a pair when either index is inactive (-1)', '')
 
